@@ -253,11 +253,15 @@ func runC26(c *vcommon.Case, spec *c26Spec, mode int) {
 	}
 	var targets []target
 	for x, b := range w.tree.blocks {
-		targets = append(targets, target{name: fmt.Sprintf("b%d", x), from: x, header: b.header})
+		if x > 0 {
+			targets = append(targets, target{name: fmt.Sprintf("b%d", x), from: x, header: b.header})
+		}
 	}
 	for j, lb := range w.loose {
 		targets = append(targets, target{name: fmt.Sprintf("loose%d(child of b%d)", j, lb.parent), from: lb.parent, header: lb.header, loose: true})
 	}
+	// the genesis header last: real blocks make the better witnesses
+	targets = append(targets, target{name: "b0", from: 0, header: w.tree.blocks[0].header})
 
 	lookups := 0
 	for _, tg := range targets {
@@ -710,6 +714,9 @@ func TestVerifC26(t *testing.T) {
 	// "nothing announced on this ancestry" lookups run last, in their own groups.
 	r.Fixed("corpus_ordinary", len(corpus), func(c *vcommon.Case) { runC26(c, corpus[c.Idx], 0) })
 	r.Cases("tree_ordinary", r.Scale(300), func(c *vcommon.Case) { runC26(c, genC26Spec(c, false), 0) })
+	r.Fixed("corpus_miss", len(corpus), func(c *vcommon.Case) { runC26(c, corpus[c.Idx], 1) })
+	r.Cases("tree_miss", r.Scale(300), func(c *vcommon.Case) { runC26(c, genC26Spec(c, false), 1) })
+	// lookups after finalisation (mixes hits and misses): last
 	r.Cases("tree_finalised", r.Scale(200), func(c *vcommon.Case) {
 		spec := genC26Spec(c, true)
 		picks := []int{c.R.Intn(1000)}
@@ -718,6 +725,4 @@ func TestVerifC26(t *testing.T) {
 		}
 		runC26Finalised(c, spec, picks)
 	})
-	r.Fixed("corpus_miss", len(corpus), func(c *vcommon.Case) { runC26(c, corpus[c.Idx], 1) })
-	r.Cases("tree_miss", r.Scale(300), func(c *vcommon.Case) { runC26(c, genC26Spec(c, false), 1) })
 }
